@@ -123,14 +123,23 @@ def observe(case, lib):
     obs = {"res": {}, "skip": None}
     bgi = tuple(case["b"])
     pairs = {}
+    # half of the cases reuse ONE ColorPair object for every configuration and switch its public `large` attribute between
+    # calls (object reuse); the other half build one object per text size
+    reuse_one = (len(repr(case["text"])) + len(case["cfgs"]) + case["t"][0]) % 2 == 0
     for (mode, large, vr) in [tuple(c) for c in case["cfgs"]]:
-        if large not in pairs:
+        key = "one" if reuse_one else large
+        if key not in pairs:
             try:
-                pairs[large] = lib.ColorPair(text, bg, large_text=large)
+                pairs[key] = lib.ColorPair(text, bg, large_text=large)
             except Exception as e:  # construction must not raise (C14) - judged there
                 obs["skip"] = f"constructor raised {type(e).__name__}"
                 return obs
-        pair = pairs[large]
+        pair = pairs[key]
+        if reuse_one and getattr(pair, "large", large) != large:
+            try:
+                pair.large = large
+            except Exception:      # a library that makes the attribute read-only is within the statement: use a fresh object
+                pairs[key] = pair = lib.ColorPair(text, bg, large_text=large)
         if not pair.is_valid:
             obs["skip"] = "library rejects reference-valid spelling"
             obs["errors"] = list(pair.errors)
